@@ -14,7 +14,7 @@ CHECK = dict(
     parts=[dict(name='c11', src=['harness/c11_bintree.c'], lib=['bintree.c'], workers=16, prebuild=_gen,
                 objs=[('@BUILD@/c11_wrap.c', [], '@BUILD@/c11_wrap_stub.c',
                        'the BINTREE_DECLARE_INLINE_WRAPPERS instantiation (wrapper-against-plain-function differential)')],
-                deadline=dict(quick=240, thorough=2700))],
+                deadline=dict(quick=300, thorough=2700))],
     rule='five passes over the real bintree.c (not in librfn.a; the driver compiles it as an object of its own, so no harness '
          'identifier shares a translation unit with it and a static it may grow is part of the resettable library image). MAIN: every '
          'binary tree shape with 0..N nodes is produced by Catalan unranking (a hash set confirms the shapes are pairwise '
